@@ -62,6 +62,39 @@ def fam_c11_unknown(rng, i):
     return p
 
 
+def fam_c11_migrate(rng, i):
+    """new peer addresses in the middle of a connection: the client rebinds (NAT rebinding: its next datagram, often a
+    small ACK, arrives from a new address) while the server is sending a large transfer, an off-path attacker re-sends
+    genuine small client datagrams from a third address that never answers PATH_CHALLENGE, and in some runs one side
+    closes shortly after a rebind. Every such address is unvalidated until a PATH_RESPONSE from it was processed."""
+    d = rng.choice([5, 20, 40])
+    n_rebind = rng.choice([1, 2, 3])
+    first = rng.choice([80, 150, 300])
+    if i % 8 != 7:
+        first = max(first, 8 * d)       # after the handshake (a rebind DURING the handshake: every 8th run)
+    times = sorted(first + k * rng.choice([4 * d + 7, 200, 500]) for k in range(n_rebind))
+    p = {
+        "seed": rng.randrange(1, 2**40), "bidi": rng.choice([0, 1]), "uni": 0, "suni": rng.choice([1, 2, 3]),
+        "size": rng.choice([300000, 1000000]), "chunk": 20000, "delay_ms": d, "deadline_ms": 120000, "payloads": 0,
+        "rebind_at_ms": ",".join(str(t) for t in times), "rebind_ip": rng.choice([0, 1, 2]),
+    }
+    k = i % 4
+    if k == 1:
+        p["spoof_pm"] = rng.choice([30, 100])
+        p["spoof_max_len"] = rng.choice([0, 100])
+    elif k == 2:
+        # the server application closes while the newest path may still be unvalidated
+        p["sclose_at_ms"] = times[-1] + rng.choice([d + 1, d + 3, 2 * d + 1, 3 * d])
+    elif k == 3:
+        p["close_at_ms"] = times[-1] + rng.choice([1, d + 1, 2 * d + 1])
+        p["spoof_pm"] = rng.choice([0, 50])
+    if rng.random() < 0.4:
+        p["drop_pm"] = rng.choice([30, 100])
+        p["faults_until_ms"] = times[-1] + 1000
+    return e2e_props._nz(p)
+
+
+e2e_props.FAMILIES.setdefault("c11-migrate", fam_c11_migrate)
 e2e_props.FAMILIES.setdefault("c11-handshake", fam_c11_handshake)
 e2e_props.FAMILIES.setdefault("c11-unknown", fam_c11_unknown)
 e2e_props.FAMILIES.setdefault("c11-amplimit", fam_c11_amplimit)
@@ -109,6 +142,19 @@ def run(ctx):
     ctx.oblige("coverage", f"T:c11-amplimit drove the server to its amplification limit ({lim['reached_limit']} datagrams ended exactly at/over 3x, "
                f"{lim['unvalidated_server_datagrams']} server datagrams before validation)", lim["reached_limit"] > 0,
                "no scenario reached the limit: the family no longer exercises the property")
+    mig = {"unvalidated_new_path_datagrams": 0, "new_path_reached_limit": 0}
+
+    def nt_mig(tr, s):
+        st = e2e_c11.stats(tr)
+        for k in mig:
+            mig[k] += st.get(k, 0)
+        return st.get("unvalidated_new_path_datagrams", 0) > 0
+
+    e2e_props.run_family(ctx, "c11-migrate", [e2e_c11.o_c11], 24, 400, nontrivial=nt_mig)
+    ctx.extra["c11_migrate_family"] = dict(mig)
+    ctx.oblige("coverage", f"T:c11-migrate sent to not yet validated new peer addresses ({mig['unvalidated_new_path_datagrams']} server datagrams "
+               f"before path validation, {mig['new_path_reached_limit']} of them ended at/over 3x)", mig["new_path_reached_limit"] > 0,
+               "no run drove a new path to its amplification limit: the family no longer exercises the property")
     seen = {"replies": 0, "vn_replies": 0, "sreset_replies": 0, "strays": 0}
 
     def nontrivial(tr, s):
